@@ -128,6 +128,9 @@ package deflate
 //@   ensures[C09 copy] 0 <= n && n <= len(data)
 //@   ensures[C09 trigger-iff-full] trigger == (c.end == 2*c.windowSize+258)
 //@   ensures[C09 progress] n == len(data) || trigger
+//@   ensures[C01 C09 slide] old(c.idx) >= 2*c.windowSize ==> c.idx == c.windowSize && c.end == old(c.end) - (old(c.idx) - c.windowSize) + n
+//@   ensures[C01 C09 no-slide] old(c.idx) < 2*c.windowSize ==> c.idx == old(c.idx) && c.end == old(c.end) + n
+//@   ensures[C09 copy-amount] n == (len(data) < 2*c.windowSize+258 - (c.end - n) ? len(data) : 2*c.windowSize+258 - (c.end - n))
 
 // histogram after GenerateCode2, before expandCodes: |code|length<<24| with length <= 15 for the 286 lit/len and 30 distance symbols
 //@ pure preEntryOK(e uint32) bool = e>>24 <= 15 && (e & 16777215) >> (e>>24) == 0
@@ -174,7 +177,7 @@ package deflate
 //@   ensures[C09 no-flush-progress] err == nil && !flush ==> w.idx + 8 >= w.end
 //@   ensures[C14 dst-err] err != nil ==> err == lastWriteErr && dstFailed(w.w)
 //@   ensures[C14 dst-ok] err == nil ==> !dstFailed(w.w)
-//@   loop 1 invariant dynShape(w) && dynPos(w) && w.w != nil && !dstFailed(w.w) && 0 <= w.idx && w.idx <= w.end && w.end <= 2*w.windowSize+258 && len(w.tokens) < 32767 && tokensOK(w.tokens) && bufOK(&w.buf) && w.buf.idx == 0 && same(w.w) && same(w.windowSize) && same(w.end) && !(finalBlock && w.end == 0)
+//@   loop 1 invariant err == nil && dynShape(w) && dynPos(w) && w.w != nil && !dstFailed(w.w) && 0 <= w.idx && w.idx <= w.end && w.end <= 2*w.windowSize+258 && len(w.tokens) < 32767 && tokensOK(w.tokens) && bufOK(&w.buf) && w.buf.idx == 0 && same(w.w) && same(w.windowSize) && same(w.end) && !(finalBlock && w.end == 0)
 
 //@ func (*dynCompressor).Compress
 //@   requires dynOK(w)
